@@ -1,6 +1,7 @@
 package main
 
 import (
+	"strings"
 	"go/types"
 
 	"golang.org/x/tools/go/ssa"
@@ -52,7 +53,58 @@ func mutexOp(in ssa.Instruction, field *types.Var, op string) bool {
 
 // atomicOp reports a sync/atomic typed method call (Load/Store/CompareAndSwap/Add) on the given struct field.
 func atomicOp(in ssa.Instruction, field *types.Var, op string) bool {
-	return isStdMethod(in, "sync/atomic", "", op) && sameField(recvField(in), field)
+	return innerAtomic(in, field, op) != nil
+}
+
+// innerAtomic returns the atomic operation `op` on `field` that the instruction performs: the instruction itself, or -
+// when it calls a straight-line wrapper of the module (func (g *gate) tryBegin() bool { return g.active.CompareAndSwap(
+// false, true) }) - the single such operation inside the wrapper, whose result the wrapper returns unchanged.
+func innerAtomic(in ssa.Instruction, field *types.Var, op string) ssa.CallInstruction {
+	if isStdMethod(in, "sync/atomic", "", op) && sameField(recvField(in), field) {
+		return in.(ssa.CallInstruction)
+	}
+	if field == nil {
+		return nil
+	}
+	c := calleeOf(in)
+	if c == nil || c.Pkg == nil || !strings.HasPrefix(c.Pkg.Pkg.Path(), modPath) || len(c.Blocks) != 1 {
+		return nil
+	}
+	var found ssa.CallInstruction
+	n, others := 0, 0
+	var ret *ssa.Return
+	for _, x := range c.Blocks[0].Instrs {
+		if r, ok := x.(*ssa.Return); ok {
+			ret = r
+		}
+		if isStdMethod(x, "sync/atomic", "", op) && sameField(recvField(x), field) {
+			found = x.(ssa.CallInstruction)
+			n++
+			continue
+		}
+		if cc := callCommon(x); cc != nil {
+			others++
+		}
+	}
+	if n != 1 || others != 0 || ret == nil {
+		return nil
+	}
+	if fv, ok := found.(ssa.Value); ok && len(ret.Results) == 1 {
+		if ret.Results[0] != fv {
+			return nil // the wrapper post-processes the result (a predicate): not the plain operation
+		}
+	} else if len(ret.Results) != 0 {
+		return nil
+	}
+	return found
+}
+
+// atomicArgs: the arguments of the atomic operation itself (see innerAtomic).
+func atomicArgs(in ssa.Instruction, field *types.Var, op string) []ssa.Value {
+	if a := innerAtomic(in, field, op); a != nil {
+		return callArgs(a)
+	}
+	return nil
 }
 
 // callsMethodOnField reports a static method call x.<field>.<name>() where the method belongs to the module.
